@@ -4,11 +4,12 @@
 # /verif's sources under /dev/shm (own build directory), so neither /repo nor /verif's build is touched.
 #   ./selftest_mutants.sh [name-filter]      results: mutants/RESULTS.txt
 set -u
-exec 9>/dev/shm/selftest-mutants.lock
+TAG="${SELFTEST_TAG:-}"   # a second instance needs its own tag (own scratch copies, own lock, own results file)
+exec 9>/dev/shm/selftest-mutants$TAG.lock
 flock -n 9 || { echo "another selftest_mutants.sh is running"; exit 2; }
 SRC="$(cd "$(dirname "$0")" && pwd)"
-WT=/dev/shm/mutant-repo
-VC=/dev/shm/mutant-verif
+WT=/dev/shm/mutant-repo$TAG
+VC=/dev/shm/mutant-verif$TAG
 FILTER="${1:-}"
 git -C /repo worktree remove --force "$WT" 2>/dev/null
 rm -rf "$WT"
@@ -17,7 +18,7 @@ mkdir -p "$VC"
 rsync -a --delete --exclude .build --exclude .git --exclude replays --exclude evidence "$SRC"/ "$VC"/
 mkdir -p "$VC/replays" "$VC/evidence"
 ( cd "$VC" && VERIF_REPO="$WT" ./check --build ) || { echo "build failed"; exit 2; }
-RES="$SRC/mutants/RESULTS.txt"
+RES="$SRC/mutants/RESULTS$TAG.txt"
 : > "$RES.tmp"
 run_one() { # name prop patch expected
   local name="$1" prop="$2" patch="$3" expected="$4"
@@ -48,7 +49,7 @@ run_one() { # name prop patch expected
   echo "$name $prop $verdict rc=$rc $((e-s))s checks=[$keys] expected=$expected others=[$others ]" | tee -a "$RES.tmp"
   git -C "$WT" checkout -q -- . ; git -C "$WT" clean -fdq
 }
-python3 - "$SRC" "$FILTER" <<'PY' > /dev/shm/mutant-list.txt
+python3 - "$SRC" "$FILTER" <<'PY' > /dev/shm/mutant-list$TAG.txt
 import json,sys,os,glob
 src,flt=sys.argv[1],sys.argv[2]
 for m in json.load(open(os.path.join(src,'mutants/catalogue.json'))):
@@ -59,7 +60,7 @@ for d in sorted(glob.glob(os.path.join(src,'seeded/*/'))):
         m=json.load(open(meta)); name='seeded/'+os.path.basename(d.rstrip('/'))
         if flt in name: print(name,m['property'],os.path.join(d,'patch.diff'),m.get('caught_by','-'))
 PY
-while read -r name prop patch expected; do run_one "$name" "$prop" "$patch" "$expected"; done < /dev/shm/mutant-list.txt
+while read -r name prop patch expected; do run_one "$name" "$prop" "$patch" "$expected"; done < /dev/shm/mutant-list$TAG.txt
 # property-preserving refactorings: every check must stay silent
 if [ -z "$FILTER" ] || [ "$FILTER" = "equivalent" ]; then
   for patch in "$SRC"/mutants/equivalent/*.patch; do
@@ -77,5 +78,5 @@ if [ -z "$FILTER" ] || [ "$FILTER" = "equivalent" ]; then
 fi
 if [ -z "$FILTER" ]; then mv "$RES.tmp" "$RES"; else cat "$RES.tmp" >> "$RES"; rm -f "$RES.tmp"; fi
 git -C /repo worktree remove --force "$WT"
-rm -rf "$VC" /dev/shm/mutant-list.txt
+rm -rf "$VC" /dev/shm/mutant-list$TAG.txt
 echo "done: $(grep -c " CAUGHT " "$RES") caught by their own check, $(grep -c "CAUGHT-BY-OTHER" "$RES") by another check, $(grep -c " MISSED " "$RES") missed"
